@@ -216,6 +216,22 @@ class Elements:
                     D = [max(d, abs(x - y)) for d, x, y in zip(D, rr, ref)]
                 except Exception:
                     pass
+        # the solver of Kepler's equation stops at an absolute residual of 1e-16 (what the statement asks of it): allow the effect
+        # of that residual on the state
+        if akind in ("M", "l", "T"):
+            if akind == "M":
+                M0_ = mp.mpf(aval)
+            elif akind == "l":
+                M0_ = (mp.mpf(aval) - Omega - om) if not retro else (mp.mpf(Omega) - om - aval)
+            else:
+                M0_ = mp.mpf(n) * (mp.mpf(sim.t) - aval)
+            for dM in (2e-16, -2e-16):
+                try:
+                    f_ = ref_f_from("M", M0_ + dM, e, Omega, om, inc, n, sim.t, retro)
+                    rr = ref_cart(G, M0, m, a, e, inc, Omega, om, f_)
+                    D = [max(d, abs(x - y)) for d, x, y in zip(D, rr, ref)]
+                except Exception:
+                    pass
         spos = max(abs(float(x)) for x in ref[:3])
         svel = max(abs(float(x)) for x in ref[3:])
         # the textbook formula r = a(1-e^2)/(1+e cos f) itself loses log10(1/|1-e|) digits in 1-e^2
